@@ -50,7 +50,7 @@ func (propC03) Gen(r *Rng, tier string) *World {
 	w.Cfg.DirStyle = r.Intn(6)
 	w.Cfg.ViaAPI = r.P(0.4)
 	w.Cfg.Event = []string{"", "", "", "report", "debug", "both"}[r.Intn(6)]
-	w.API = []string{"eval", "eval", "eval", "tryeval"}[r.Intn(4)] // TryEval with every variable available evaluates too
+	w.API = []string{"eval", "eval", "eval", "tryeval", "evalbool"}[r.Intn(5)] // TryEval with every variable available evaluates too
 	first := r.Intn(16)
 	nm := 4
 	if tier == "thorough" {
@@ -67,6 +67,18 @@ func (propC03) Gen(r *Rng, tier string) *World {
 	w.EnumFaults = r.P(0.6)
 	for i, nf := 0, r.Intn(3); i < nf; i++ {
 		w.Calls = append(w.Calls, randomFaultPlan(r, &base, 1+r.Intn(12)))
+	}
+	if w.API != "tryeval" && r.P(0.3) {
+		// a fetcher with a cold cache: Cached says no for some variables, Get
+		// loads them all the same. Eval and EvalBool evaluate; what is or is not
+		// cached is none of their business
+		for i := range w.Calls {
+			for _, v := range w.Cfg.Vars {
+				if r.P(0.4) {
+					w.Calls[i].Unavail = append(w.Calls[i].Unavail, v.Name)
+				}
+			}
+		}
 	}
 	return w
 }
@@ -181,9 +193,9 @@ func (propC03) Run(w *World, st *Stats) *Violation {
 			st.Probe("fast_evaluation_on")
 		}
 		one := func(p *Plan) (*Violation, int) {
-			if w.API == "tryeval" && p.Kind != "tryeval" {
+			if (w.API == "tryeval" || w.API == "evalbool") && p.Kind != w.API {
 				q := p.Clone()
-				q.Kind = "tryeval"
+				q.Kind = w.API
 				p = &q
 			}
 			out := c.Run(ops, p, "eval")
